@@ -143,7 +143,8 @@ def rhe(q):
     return fl if fl % 2 == 0 else fl + 1
 
 def gen_case(rng, kind="valid"):
-    """kind: valid | sibling (D15/D24) | parallel (D18) | heun (D7) | none (explicit None) | short (out of scope)"""
+    """kind: valid | sibling (mixed delayed/undelayed fan-out: valid since D70) | parallel (D18 rest) | heun (D7) |
+    none (delay: None written out: valid since D69) | short (out of scope)"""
     ns = rng.randint(1, 3); nt = rng.randint(1, 5)
     kinds = ["s"] * ns + ["t"] * nt
     rng.shuffle(kinds)
@@ -168,7 +169,7 @@ def gen_case(rng, kind="valid"):
     dt = Fr(1, rng.choice([4, 8, 16]))
     vec = rng.random() < 0.5 or fan
     key = (lambda i: nodes[i]["cls"]) if vec else (lambda i: i)
-    p_undelayed = {"valid": 0.25, "sibling": 0.4, "parallel": 0.3, "heun": 0.2, "none": 0.4, "short": 0.2}[kind]
+    p_undelayed = {"valid": 0.3, "sibling": 0.4, "parallel": 0.3, "heun": 0.2, "none": 0.4, "short": 0.2}[kind]
     uform = "none" if kind == "none" else "nokey"
     edges = []
     for j in range(len(T) + rng.randint(0, 3) if fan else rng.randint(1, 7)):
@@ -183,24 +184,26 @@ def gen_case(rng, kind="valid"):
             if rhe(Fr(ds) / dt) < 2:
                 ds = str(Fr(ds) + dt)
         edges.append([s, t, w, ds])
+    zero = lambda e: e[3] in ("nokey", "none") or rhe(Fr(e[3]) / dt) == 0
     if kind == "parallel":
+        # vectorize=False, a buffered source with two edges of 0 steps to one target (what is left of D18), or other parallel pairs
         vec = False
         e = rng.choice(edges)
-        edges.append([e[0], e[1], str(Fr(rng.randint(1, 8), 4)), rng.choice(["nokey", str(_delay(rng, dt, 2))])])
-        if all(x[3] == "nokey" for x in edges if x[0] == e[0]):
-            edges[-1][3] = str(_delay(rng, dt, 2))
+        if rng.random() < 0.6:
+            edges.append([e[0], e[1], str(Fr(rng.randint(1, 8), 4)), "nokey"])
+            edges.append([e[0], e[1], str(Fr(rng.randint(1, 8), 4)), "nokey"])
+            edges.append([e[0], rng.choice(T), "1", str(_delay(rng, dt, 2))])
+        else:
+            edges.append([e[0], e[1], str(Fr(rng.randint(1, 8), 4)), rng.choice(["nokey", str(_delay(rng, dt, 2))])])
     if kind in ("valid", "heun"):
-        # repair: a buffered (merged) source variable has only delayed edges; non-vectorized: no parallel edges on it
-        buffered = {key(e[0]) for e in edges if e[3] != "nokey"}
+        # non-vectorized: at most one edge of 0 steps per variable pair on a buffered source (the remaining loud class)
+        buffered = {key(e[0]) for e in edges if not zero(e) and rhe(Fr(e[3]) / dt) > 1}
         out, seen = [], set()
         for e in edges:
-            if key(e[0]) in buffered:
-                if e[3] == "nokey":
-                    e = e[:3] + [str(_delay(rng, dt, 2))]
-                if not vec:
-                    if (e[0], e[1]) in seen:
-                        continue
-                    seen.add((e[0], e[1]))
+            if not vec and key(e[0]) in buffered and zero(e):
+                if (e[0], e[1]) in seen:
+                    continue
+                seen.add((e[0], e[1]))
             out.append(e)
         edges = out
     maxd = max([rhe(Fr(e[3]) / dt) for e in edges if e[3] not in ("nokey", "none")] + [0])
@@ -257,7 +260,7 @@ def nontrivial(case):
     return any(e[3] not in ("nokey", "none") and rhe(Fr(e[3]) / dt) >= 2 for e in case["edges"])
 
 # ---------------------------------------------------------------------------------------------- model side
-GUARDS = ["g_euler", "g_no_undelayed_sibling", "g_no_parallel_buffered", "g_no_explicit_none", "g_delays_ge2"]
+GUARDS = ["g_euler", "g_no_undelayed_sibling", "g_no_parallel_buffered", "g_delays_ge2"]
 HEADER = """From Coq Require Import List ZArith QArith Qcanon Bool Arith.
 From PV Require Import Ring Corr.
 Import ListNotations.
